@@ -116,7 +116,7 @@ def _crop(N, n):
         mc = MM.DiffractionPatterns._crop(np.asarray(full).view(snp.SymArr), tuple(n))
         c.prove("crop.measurement_crop_matches", zand(*[sx.zeq(SComplex.of(np.asarray(mc)[i]), SComplex.of(np.asarray(crop)[i])) for i in np.ndindex(tuple(n))]), replay=rp)
         if n[0] * n[1] > 1:
-            c.canary("crop.canary_corner", sx.zeq(SComplex.of(crop[0, 0]), SComplex.of(full[0, 0])) if tuple(n) != tuple(N) else z3.BoolVal(False))
+            c.canary("crop.canary_corner", sx.zeq(SComplex.of(crop[0, 0]), SComplex.of(full[N[0] - 1, N[1] - 1])) if tuple(n) != tuple(N) else z3.BoolVal(False))
     return fn
 
 
